@@ -19,6 +19,7 @@ type replayDoc struct {
 	Nondet   []NondetRec `json:"nondet"`
 	Fired    []int       `json:"timers_fired"`
 	Sched    []int       `json:"schedule"`
+	MapOrders []int      `json:"map_orders"`
 }
 
 // isRace: a lock-discipline finding, confirmed with the race detector on free-running goroutines.
@@ -92,46 +93,35 @@ func findHarnessDir(verif, harness string) (string, string, error) {
 	return "", "", fmt.Errorf("harness %s not found", harness)
 }
 
-// ReplayNative compiles the harness natively against the real build of repo (overlay only, nothing
-// is written under repo) and runs it on the recorded counterexample. ok reports whether the
-// expected failure reproduced.
-func ReplayNative(repo, verif, replayPath string) (bool, string) {
-	data, err := os.ReadFile(replayPath)
+// nativeMode says which shims a native build needs.
+type nativeMode struct{ clock, sched, race bool }
+
+func (d *replayDoc) mode() nativeMode {
+	return nativeMode{clock: d.usesClock(), sched: d.usesSched(), race: d.isRace()}
+}
+
+var nativeEnv = []string{"GOFLAGS=-mod=mod", "GOPROXY=off", "GOSUMDB=off", "GOTOOLCHAIN=local", "GOWORK=off"}
+
+// buildNative compiles the harnesses of one harness dir natively against the real build of repo
+// (overlay only, nothing is written under repo). The binary runs the harness named by $ZV_HARNESS.
+// The caller removes tmp.
+func buildNative(repo, verif, hd, rel string, harnesses []string, md nativeMode) (bin, tmp string, err error) {
+	tmp, err = os.MkdirTemp("", "gosym-replay-")
 	if err != nil {
-		return false, err.Error()
+		return "", "", err
 	}
-	var doc replayDoc
-	if err := json.Unmarshal(data, &doc); err != nil {
-		return false, err.Error()
-	}
-	hd, rel, err := findHarnessDir(verif, doc.Harness)
-	if err != nil {
-		return false, err.Error()
-	}
-	tmp, err := os.MkdirTemp("", "gosym-replay-")
-	if err != nil {
-		return false, err.Error()
-	}
-	defer os.RemoveAll(tmp)
 	imp := RepoMod
 	if rel != "." {
 		imp = RepoMod + "/" + rel
 	}
-	mainSrc := fmt.Sprintf(`package main
-
-import (
-	"fmt"
-	h %q
-	vrt "`+RepoMod+`/zzvrt"
-)
-
-func main() {
-	vrt.RunSchedules(h.%s)
-	fmt.Println("ZV: END")
-}
-`, imp, doc.Harness)
+	var sb strings.Builder
+	fmt.Fprintf(&sb, "package main\n\nimport (\n\t\"fmt\"\n\t\"os\"\n\th %q\n\tvrt %q\n)\n\nfunc main() {\n\tswitch os.Getenv(\"ZV_HARNESS\") {\n", imp, RepoMod+"/zzvrt")
+	for _, h := range harnesses {
+		fmt.Fprintf(&sb, "\tcase %q:\n\t\tvrt.RunSchedules(h.%s)\n", h, h)
+	}
+	sb.WriteString("\tdefault:\n\t\tfmt.Println(\"ZV: unknown harness\")\n\t\tos.Exit(7)\n\t}\n\tfmt.Println(vrt.EndLine())\n}\n")
 	mainPath := filepath.Join(tmp, "main.go")
-	os.WriteFile(mainPath, []byte(mainSrc), 0o644)
+	os.WriteFile(mainPath, []byte(sb.String()), 0o644)
 	repl := map[string]string{filepath.Join(repo, "zzvmain", "main.go"): mainPath}
 	for _, d := range []string{hd, "zzvrt"} {
 		r := d
@@ -149,27 +139,25 @@ func main() {
 		repl string
 	}
 	var reds []redirect
-	if doc.usesClock() {
+	if md.clock {
 		files, _ := filepath.Glob(filepath.Join(verif, "harness", "zzvtime", "*.go"))
 		for _, f := range files {
 			repl[filepath.Join(repo, "zzvtime", filepath.Base(f))] = f
 		}
 		reds = append(reds, redirect{timeImportRe, `${1}time "` + RepoMod + `/zzvtime"`})
 	}
-	if doc.usesSched() {
+	if md.sched {
 		files, _ := filepath.Glob(filepath.Join(verif, "harness", "zzvsync", "*.go"))
 		for _, f := range files {
 			repl[filepath.Join(repo, "zzvsync", filepath.Base(f))] = f
 		}
 		reds = append(reds, redirect{syncImportRe, `${1}sync "` + RepoMod + `/zzvsync"`})
-	}
-	if doc.usesSched() {
 		// Memoize's callers synchronise inside golang.org/x/sync/singleflight (module cache). A
 		// dependency module cannot import the shim, so the REAL singleflight source is compiled as
 		// an overlay package of the repo (import of sync redirected) and memoize.go imports that.
 		lm := exec.Command("go", "list", "-m", "-f", "{{.Dir}}", "golang.org/x/sync")
 		lm.Dir = repo
-		lm.Env = append(os.Environ(), "GOFLAGS=-mod=mod", "GOPROXY=off", "GOSUMDB=off", "GOTOOLCHAIN=local", "GOWORK=off")
+		lm.Env = append(os.Environ(), nativeEnv...)
 		if out, err := lm.Output(); err == nil {
 			if d := strings.TrimSpace(string(out)); d != "" {
 				if src, err := os.ReadFile(filepath.Join(d, "singleflight", "singleflight.go")); err == nil {
@@ -192,6 +180,14 @@ func main() {
 			for _, rel := range goFilesImporting(repo, rd.re) {
 				targets = append(targets, filepath.Join(repo, rel))
 			}
+			// harness files of the package under test that build sync objects themselves
+			for virt, real := range repl {
+				if strings.HasPrefix(filepath.Base(virt), "zv_") {
+					if data, e := os.ReadFile(real); e == nil && rd.re.Match(data) {
+						targets = append(targets, virt)
+					}
+				}
+			}
 		}
 		for _, virt := range targets {
 			srcPath := virt
@@ -212,46 +208,90 @@ func main() {
 	ovData, _ := json.Marshal(map[string]interface{}{"Replace": repl})
 	ovPath := filepath.Join(tmp, "overlay.json")
 	os.WriteFile(ovPath, ovData, 0o644)
-	bin := filepath.Join(tmp, "replay.bin")
-	env := append(os.Environ(), "GOFLAGS=-mod=mod", "GOPROXY=off", "GOSUMDB=off", "GOTOOLCHAIN=local", "GOWORK=off")
+	bin = filepath.Join(tmp, "replay.bin")
 	ctx, cancel := context.WithTimeout(context.Background(), 5*time.Minute)
 	defer cancel()
 	buildArgs := []string{"build", "-overlay", ovPath, "-o", bin}
-	if doc.isRace() {
+	if md.race {
 		buildArgs = append(buildArgs, "-race")
 	}
 	buildArgs = append(buildArgs, "./zzvmain")
 	build := exec.CommandContext(ctx, "go", buildArgs...)
 	build.Dir = repo
-	build.Env = env
+	build.Env = append(os.Environ(), nativeEnv...)
 	if out, err := build.CombinedOutput(); err != nil {
-		return false, "native build failed: " + string(out)
+		return "", tmp, fmt.Errorf("native build failed: %s", out)
 	}
-	var out []byte
+	return bin, tmp, nil
+}
+
+// runNative runs the binary on one replay file; extra env selects the mode.
+func runNative(bin, harness, replayPath string, timeout time.Duration, extra ...string) (string, error, bool) {
+	ctx, cancel := context.WithTimeout(context.Background(), timeout)
+	defer cancel()
+	run := exec.CommandContext(ctx, bin)
+	run.Env = append(append(os.Environ(), nativeEnv...), "ZV_REPLAY="+replayPath, "ZV_HARNESS="+harness)
+	run.Env = append(run.Env, extra...)
+	out, err := run.CombinedOutput()
+	return string(out), err, ctx.Err() != nil
+}
+
+// ReplayNative compiles the harness natively against the real build of repo and runs it on the
+// recorded counterexample. ok reports whether the expected failure reproduced.
+func ReplayNative(repo, verif, replayPath string) (bool, string) {
+	data, err := os.ReadFile(replayPath)
+	if err != nil {
+		return false, err.Error()
+	}
+	var doc replayDoc
+	if err := json.Unmarshal(data, &doc); err != nil {
+		return false, err.Error()
+	}
+	hd, rel, err := findHarnessDir(verif, doc.Harness)
+	if err != nil {
+		return false, err.Error()
+	}
+	bin, tmp, err := buildNative(repo, verif, hd, rel, []string{doc.Harness}, doc.mode())
+	if tmp != "" {
+		defer os.RemoveAll(tmp)
+	}
+	if err != nil {
+		return false, err.Error()
+	}
+	var txt string
 	var rerr error
-	var ctx2 context.Context
+	timedOut := false
 	attempts := 1
 	if doc.isRace() {
 		attempts = 6 // the detector needs both accesses to execute unordered; free-running, so retry
 	}
+	if len(doc.MapOrders) > 0 && !doc.isRace() {
+		attempts = 60 // the native iteration order of a map cannot be steered: re-run until it occurs
+	}
+	reproduced := func(txt string) bool {
+		w := doc.ID
+		return strings.Contains(txt, "ZV: ASSERT-FAIL "+w) ||
+			(strings.HasSuffix(w, "/unexpected-panic") && (strings.Contains(txt, "panic:") || strings.Contains(txt, "fatal error:")))
+	}
 	for a := 0; a < attempts; a++ {
-		c2, cancel2 := context.WithTimeout(context.Background(), 90*time.Second)
-		ctx2 = c2
-		run := exec.CommandContext(c2, bin)
-		run.Env = append(env, "ZV_REPLAY="+replayPath)
+		var extra []string
 		if doc.isRace() {
-			run.Env = append(run.Env, "ZV_LOOP=400", "GORACE=halt_on_error=1")
+			extra = append(extra, "ZV_LOOP=400", "GORACE=halt_on_error=1")
 		}
 		if doc.usesSched() {
-			run.Env = append(run.Env, "ZV_SCHED=dfs", "ZV_TARGET="+doc.ID)
+			extra = append(extra, "ZV_SCHED=dfs", "ZV_TARGET="+doc.ID)
 		}
-		out, rerr = run.CombinedOutput()
-		cancel2()
-		if !doc.isRace() || strings.Contains(string(out), "DATA RACE") {
+		txt, rerr, timedOut = runNative(bin, doc.Harness, replayPath, 90*time.Second, extra...)
+		if doc.isRace() {
+			if strings.Contains(txt, "DATA RACE") {
+				break
+			}
+			continue
+		}
+		if len(doc.MapOrders) == 0 || reproduced(txt) {
 			break
 		}
 	}
-	txt := string(out)
 	if len(txt) > 4000 {
 		txt = txt[:4000]
 	}
@@ -267,7 +307,7 @@ func main() {
 		return true, txt
 	case strings.HasSuffix(want, "/goroutine-panic") && strings.Contains(txt, "panic:"):
 		return true, txt
-	case want == "deadlock" && (strings.Contains(txt, "deadlock") || ctx2.Err() != nil):
+	case want == "deadlock" && (strings.Contains(txt, "deadlock") || timedOut):
 		return true, txt
 	case want == "fatal" && strings.Contains(txt, "fatal error:"):
 		return true, txt
